@@ -226,13 +226,14 @@ Proof.
   cbn [answered_run] in H. apply andb_true_iff in H. destruct H as [Hi Hr].
   cbn [e_run]. specialize (IH (fst (e_input cfg g i)) Hr).
   assert (no_to (snd (e_input cfg g i))) as Ho.
-  { destruct i as [d t|m|t|]; cbn [e_input].
+  { destruct i as [d t|m|t| |w]; cbn [e_input].
     - apply e_net_no_timeout.
     - unfold e_app. destruct (e_phase (g_st g)); nt.
     - destruct (classic_active g) as [Ha|Hn].
       + rewrite tick_rule by exact Ha. apply negb_true_iff in Hi. rewrite Hi.
         destruct (ping_due cfg g t); unfold ping_out; nt.
       + rewrite tick_inactive by exact Hn. nt.
+    - nt.
     - nt. }
   destruct (e_input cfg g i) as [g1 o]. cbn [fst snd] in *. destruct (e_run cfg g1 is) as [g2 os].
   cbn [snd] in *. constructor; auto.
@@ -294,4 +295,86 @@ Proof.
     destruct short as [|a [|b0 t]]; cbn in Hl; try lia; reflexivity. }
   change (f_cmd (cmd_frame ((4 :: s_PING) ++ short))) with true. cbn iota.
   rewrite Hpc. destruct (e_version st) as [[|]|]; try congruence; reflexivity.
+Qed.
+
+(* ---------- outbound writes (record_activity) and the PONG deadline ---------- *)
+(* an outbound write refreshes the activity stamp and nothing else: in particular it does NOT move the
+   outstanding PING or its deadline *)
+Theorem wrote_only_refreshes_activity cfg g w :
+  let g' := fst (e_wrote cfg g w) in
+  g_st g' = g_st g /\ g_acc g' = g_acc g /\ h_last_activity (g_hb g') = w /\
+  h_last_ping (g_hb g') = h_last_ping (g_hb g) /\ h_waiting (g_hb g') = h_waiting (g_hb g) /\
+  snd (e_wrote cfg g w) = [].
+Proof. cbn. repeat split; reflexivity. Qed.
+
+(* no PING sooner than one interval after an outbound write either *)
+Theorem ping_not_early_after_write cfg g w now x :
+  In x (snd (e_tick cfg (fst (e_wrote cfg g w)) now)) -> (exists b z, x = OSend b z) ->
+  exists ivl, c_hb_ivl cfg = Some ivl /\ ivl <= now - w.
+Proof.
+  intros Hin Hx. destruct (ping_not_early _ _ _ _ Hin Hx) as [ivl [Hi [_ Hl]]].
+  exists ivl. split; [exact Hi|]. cbn in Hl. exact Hl.
+Qed.
+
+(* the session's backstop timer: PING time + timeout, whatever the activity stamp says *)
+Theorem pong_deadline_from_ping cfg g p :
+  h_waiting (g_hb g) = true -> h_last_ping (g_hb g) = Some p ->
+  e_pong_deadline cfg g = Some (p + match c_hb_timeout cfg with Some t => t | None => 30000000000 end).
+Proof. unfold e_pong_deadline. intros -> ->. reflexivity. Qed.
+Theorem pong_deadline_ignores_writes cfg g w :
+  e_pong_deadline cfg (fst (e_wrote cfg g w)) = e_pong_deadline cfg g.
+Proof. reflexivity. Qed.
+Theorem pong_deadline_none_when_not_waiting cfg g :
+  h_waiting (g_hb g) = false -> e_pong_deadline cfg g = None.
+Proof. unfold e_pong_deadline. intros ->. reflexivity. Qed.
+
+(* a run in which the PING stays unanswered: no PONG is parsed, no tick reaches the deadline, nobody closes *)
+Definition unanswered_input (cfg : ecfg) (g : engine) (i : einput) : bool :=
+  match i with
+  | INet d _ => let '(_, _, o) := pump (estep cfg) emu EMU_MAX (g_st g) (g_acc g ++ d) in negb (has_pong o)
+  | ITick now => negb (timed_out cfg g now)
+  | IClose => false
+  | IApp _ | IWrote _ => true
+  end.
+Fixpoint unanswered_run (cfg : ecfg) (g : engine) (is : list einput) : bool :=
+  match is with
+  | [] => true
+  | i :: rest => unanswered_input cfg g i && unanswered_run cfg (fst (e_input cfg g i)) rest
+  end.
+
+Lemma fst_e_run_cons cfg g i is : fst (e_run cfg g (i :: is)) = fst (e_run cfg (fst (e_input cfg g i)) is).
+Proof. cbn [e_run]. destruct (e_input cfg g i) as [g1 o]. cbn [fst]. destruct (e_run cfg g1 is). reflexivity. Qed.
+
+Lemma unanswered_keeps_ping cfg g i p :
+  h_waiting (g_hb g) = true -> h_last_ping (g_hb g) = Some p -> unanswered_input cfg g i = true ->
+  h_waiting (g_hb (fst (e_input cfg g i))) = true /\ h_last_ping (g_hb (fst (e_input cfg g i))) = Some p.
+Proof.
+  intros Hw Hp Hu. destruct i as [d t|m|t| |w]; cbn [e_input unanswered_input] in *.
+  - unfold e_net. destruct (pump (estep cfg) emu EMU_MAX (g_st g) (g_acc g ++ d)) as [[st' r] o].
+    cbn [fst g_hb h_waiting h_last_ping]. apply negb_true_iff in Hu. rewrite Hu. split; assumption.
+  - unfold e_app. destruct (e_phase (g_st g)); cbn [fst]; split; assumption.
+  - apply negb_true_iff in Hu. destruct (classic_active g) as [Ha|Hn].
+    + rewrite tick_rule by exact Ha. rewrite Hu. unfold ping_due. rewrite Hw.
+      destruct (c_hb_ivl cfg); cbn [negb andb fst]; split; assumption.
+    + rewrite tick_inactive by exact Hn. cbn [fst]. split; assumption.
+  - discriminate.
+  - cbn. split; assumption.
+Qed.
+
+(* clause "closed if no PONG arrives within HEARTBEAT_TIMEOUT of that PING", at trace level: whatever else
+   happens after the PING at p - outbound writes, application sends, inbound frames that are not a PONG,
+   earlier ticks - the first tick at or after p + timeout closes the connection with Timeout *)
+Theorem dead_peer_closed_despite_traffic cfg t p now : forall is g,
+  c_hb_timeout cfg = Some t -> h_waiting (g_hb g) = true -> h_last_ping (g_hb g) = Some p ->
+  unanswered_run cfg g is = true ->
+  hb_active (fst (e_run cfg g is)) -> p + t <= now ->
+  snd (e_tick cfg (fst (e_run cfg g is)) now) = [OErr ETimeout] /\
+  e_phase (g_st (fst (e_tick cfg (fst (e_run cfg g is)) now))) = PClosed.
+Proof.
+  induction is as [|i is IH]; intros g Ht Hw Hp Hu Ha Hn.
+  - cbn [e_run fst] in *. eapply dead_peer_closed; eauto.
+  - cbn [unanswered_run] in Hu. apply andb_true_iff in Hu. destruct Hu as [Hi Hr].
+    rewrite fst_e_run_cons in *.
+    destruct (unanswered_keeps_ping cfg g i p Hw Hp Hi) as [Hw' Hp'].
+    apply IH; assumption.
 Qed.
